@@ -705,16 +705,16 @@ class MaterialNode(SceneNode):
         self.xmlnode.set('symbol', self.symbol)
         self.xmlnode.set('target', "#%s" % self.target.id)
 
-        inputs_in = []
+        # the bind_vertex_input children are the input tuples, in list order
+        # (they follow any <bind> children and precede any <extra>)
         for i in self.xmlnode.findall(tag('bind_vertex_input')):
-            input_tuple = (i.get('semantic'), i.get('input_semantic'), i.get('input_set'))
-            if input_tuple not in self.inputs:
-                self.xmlnode.remove(i)
-            else:
-                inputs_in.append(input_tuple)
-        for i in self.inputs:
-            if i not in inputs_in:
-                self.xmlnode.append(E.bind_vertex_input(semantic=i[0], input_semantic=i[1], input_set=i[2]))
+            self.xmlnode.remove(i)
+        loc = len(self.xmlnode.findall(tag('bind')))
+        for n, i in enumerate(self.inputs):
+            inputnode = E.bind_vertex_input(semantic=i[0], input_semantic=i[1])
+            if i[2] is not None:
+                inputnode.set('input_set', i[2])
+            self.xmlnode.insert(loc + n, inputnode)
 
     def __str__(self):
         return '<MaterialNode symbol=%s targetid=%s>' % (self.symbol, self.target.id)
